@@ -41,10 +41,10 @@ impl<K> OrphanStats<K> {
         for hash in &self.orphaned_blobs {
             let blob_path = self.cas_inner.paths.cas_file_path(hash);
             {
-                let intents = self.cas_inner.index.pending_intents.lock();
+                let _intents = self.cas_inner.index.pending_intents.lock();
                 let state = self.cas_inner.index.read_state();
                 let still_referenced = state.contains_blob_hash(hash);
-                let has_intent = intents.values().any(|intent_hash| intent_hash == hash);
+                let has_intent = self.cas_inner.index.has_live_intent(hash);
                 drop(state);
 
                 if still_referenced || has_intent {
@@ -108,10 +108,10 @@ impl<K> OrphanStats<K> {
             let src_path = self.cas_inner.paths.cas_file_path(hash);
             let dst_path = quarantine_dir.join(hash.to_string());
             {
-                let intents = self.cas_inner.index.pending_intents.lock();
+                let _intents = self.cas_inner.index.pending_intents.lock();
                 let state = self.cas_inner.index.read_state();
                 let still_referenced = state.contains_blob_hash(hash);
-                let has_intent = intents.values().any(|intent_hash| intent_hash == hash);
+                let has_intent = self.cas_inner.index.has_live_intent(hash);
                 drop(state);
 
                 if still_referenced || has_intent {
@@ -147,10 +147,10 @@ impl<K> OrphanStats<K> {
             return Ok(false); // Not in orphan list
         }
         let blob_path = self.cas_inner.paths.cas_file_path(hash);
-        let intents = self.cas_inner.index.pending_intents.lock();
+        let _intents = self.cas_inner.index.pending_intents.lock();
         let state = self.cas_inner.index.read_state();
         let still_referenced = state.contains_blob_hash(hash);
-        let has_intent = intents.values().any(|intent_hash| intent_hash == hash);
+        let has_intent = self.cas_inner.index.has_live_intent(hash);
         drop(state);
 
         if still_referenced || has_intent {
